@@ -252,9 +252,25 @@ class BodyInfo:
         res = []
         for e in self.switches:
             path = self._path_from_site(e["subject"], site.block)
+            if path is None and self._mentions_phi(e["subject"]):
+                # the result was parked in a carrier (`let polled = match .. { .. => Some(fut.poll(cx)), .. => None };
+                # match polled { Some(Poll::Ready(x)) => ..`): read the subject back through the carrier's definitions
+                try:
+                    from .rules.flow import refine
+                    path = self._path_from_site(refine(self, e["subject"]), site.block)
+                except Exception:
+                    path = None
             if path is not None:
                 res.append((tuple(path), e))
         return res
+
+    @staticmethod
+    def _mentions_phi(t):
+        n = 0
+        while isinstance(t, tuple) and t and t[0] in ("field", "variant", "index") and n < 12:
+            t = t[1]
+            n += 1
+        return isinstance(t, tuple) and bool(t) and t[0] == "phi"
 
     def _path_from_site(self, term, site_block):
         path = []
